@@ -26,7 +26,7 @@ func init() {
 		Run: func(c *core.Ctx, idx int) {
 			r := c.Rand()
 			cfg := kmodel.AllConfigs[idx%len(kmodel.AllConfigs)]
-			w := map[string]int{"create": 10, "update": 4, "patch": 4, "delete": 8, "addlinks": 4, "setlinks": 3, "removelinks": 1, "rcinc": 4, "rcdec": 1, "rcset": 1}
+			w := map[string]int{"create": 10, "update": 4, "patch": 4, "delete": 8, "deletewhere": 2, "addlinks": 4, "setlinks": 3, "removelinks": 1, "rcinc": 4, "rcdec": 1, "rcset": 1}
 			var pre *kmodel.Model
 			runHistory(c, r, histOpts{Prefix: "C06", Cfg: cfg, NTx: 45, MaxOps: 3, Hostile: true, Weights: w, NeedDump: true,
 				AfterTx: func(e *kmodel.Engine, res *kmodel.TxResult, before, after *dump.Dump) {
